@@ -42,8 +42,65 @@ Proof.
 Qed.
 
 (** the body of [dash_impl]'s initial-phase loop: one unfolding of the model's [init_loop] where its condition holds *)
-Lemma br_dash_init_step : forall (T : Type) (S : Scalar T) (dash_ix_ : nat) (dash_remaining_ : T) (is_active_ : bool) (dashes_ : (list T)), forall tr_fuel tr_fx, KV.Dash.init_continue tr_fx dash_remaining_ is_active_ = true -> KV.Dash.init_loop tr_fx dashes_ (Datatypes.S tr_fuel) dash_ix_ dash_remaining_ is_active_ = (let '(_, tr_i, tr_r, tr_a) := (Gen.dash_init_step dash_ix_ dash_remaining_ is_active_ dashes_) in KV.Dash.init_loop tr_fx dashes_ tr_fuel tr_i tr_r tr_a).
+(* owner: dash_init_step *)
+Lemma sim_dash_init_step : forall (T : Type) (S : Scalar T) (dash_ix_ : nat) (dash_remaining_ : T) (is_active_ : bool) (dashes_ : (list T)), forall tr_fuel tr_fx, KV.Dash.init_continue tr_fx dash_remaining_ is_active_ = true -> KV.Dash.init_loop tr_fx dashes_ (Datatypes.S tr_fuel) dash_ix_ dash_remaining_ is_active_ = (let '(_, tr_i, tr_r, tr_a) := (Gen.dash_init_step dash_ix_ dash_remaining_ is_active_ dashes_) in KV.Dash.init_loop tr_fx dashes_ tr_fuel tr_i tr_r tr_a).
 Proof.
   intros T S ix rem act dashes fuel fx Hc. cbn [KV.Dash.init_loop]. rewrite Hc.
   cbv beta iota zeta delta [Gen.dash_init_step]. rewrite PeanoNat.Nat.add_1_r. reflexivity.
 Qed.
+(* the step never leaves the function: there is no [return] in the loop body *)
+(* owner: dash_init_step *)
+Lemma dash_init_step_goes_on : forall (T : Type) (S : Scalar T) (ix : nat) (rem : T) (act : bool) (dashes : list T),
+  fst (fst (fst (Gen.dash_init_step ix rem act dashes))) = None.
+Proof. reflexivity. Qed.
+
+Lemma br_dash_init_step : forall (T : Type) (S : Scalar T) (dash_ix_ : nat) (dash_remaining_ : T) (is_active_ : bool) (dashes_ : (list T)), forall tr_fuel tr_fx, KV.Dash.init_continue tr_fx dash_remaining_ is_active_ = true -> KV.Dash.init_loop tr_fx dashes_ (Datatypes.S tr_fuel) dash_ix_ dash_remaining_ is_active_ = (let '(_, tr_i, tr_r, tr_a) := (Gen.dash_init_step dash_ix_ dash_remaining_ is_active_ dashes_) in KV.Dash.init_loop tr_fx dashes_ tr_fuel tr_i tr_r tr_a).
+Proof. exact sim_dash_init_step. Qed.
+
+(** ** [dash_impl] as a whole: [dash_ix = 0], [dashes[0] - dash_offset], the initial-phase [while] (with the model's fuel; one
+    iteration is the generated step above, not translated a second time; its condition carries the [fx_init] repair, so the
+    model is taken at [fixes_all]) and the [DashIterator { .. }] literal, which the translator renders as the pair
+    (the constant fields [dashes], [init_dash_ix], [init_dash_remaining], [init_is_active]; the model record).  Against the
+    model's [dash_init] and [init_state], wherever [dash_init] is [InitOk]: [InitPanic] is the panic of [dashes[0]] on an
+    empty pattern, [InitFuel] the model's fuel running out (the generated loop just stops there). *)
+Section DashImpl.
+Context {T : Type} `{Scalar T}.
+
+Definition sim_dash_impl (fuel : nat) (inner : list (PathEl T)) (offset : T) (dashes : list T)
+    (g : (list T * nat * T * bool) * KV.Dash.DS T) : Prop :=
+  match KV.Dash.dash_init KV.Dash.fixes_all dashes fuel offset with
+  | KV.Dash.InitOk ph => g = ((dashes, KV.Dash.p_ix ph, KV.Dash.p_rem ph, KV.Dash.p_act ph), KV.Dash.init_state ph inner)
+  | _ => True
+  end.
+
+(* owner: dash_impl *)
+Lemma sim_dash_impl_all fuel inner offset dashes : sim_dash_impl fuel inner offset dashes (Gen.dash_impl fuel inner offset dashes).
+Proof.
+  unfold sim_dash_impl, dash_init. destruct dashes as [|d0 ds]; [exact I|].
+  set (dashes := d0 :: ds).
+  cbv beta zeta delta [Gen.dash_impl].
+  change (nth 0 dashes f0) with d0.
+  match goal with |- context [?F fuel 0%nat (d0 - offset)%S true] =>
+    assert (E : forall fuel ix rem act,
+               match init_loop fixes_all dashes fuel ix rem act with
+               | Some ph => F fuel ix rem act = (p_ix ph, p_rem ph, p_act ph)
+               | None => True
+               end)
+  end.
+  { clear fuel. induction fuel as [|k IH]; intros ix rem act.
+    - cbn [init_loop]. destruct (init_continue fixes_all rem act); [exact I | reflexivity].
+    - assert (C : init_continue fixes_all rem act = ((rem <? fofZ 0) || ((rem =? fofZ 0) && negb act))%S) by reflexivity.
+      destruct (init_continue fixes_all rem act) eqn:Hc.
+      + rewrite (sim_dash_init_step T _ ix rem act dashes k fixes_all Hc).
+        pose proof (dash_init_step_goes_on T _ ix rem act dashes) as G.
+        cbv beta iota. rewrite <- C. cbv beta iota.
+        destruct (Gen.dash_init_step ix rem act dashes) as [[[o i'] r'] a']. cbn [fst] in G. subst o. apply IH.
+      + cbn [init_loop]. rewrite Hc. cbv beta iota. rewrite <- C. reflexivity. }
+  specialize (E fuel 0%nat (d0 - offset)%S true).
+  destruct (init_loop fixes_all dashes fuel 0 (d0 - offset)%S true) as [ph|]; [|exact I].
+  rewrite E. reflexivity.
+Qed.
+End DashImpl.
+
+Lemma br_dash_impl : forall (T : Type) (S : Scalar T) (fuel_ : nat) (inner_ : (list (PathEl T))) (dash_offset_ : T) (dashes_ : (list T)), KVBridge.Dash_bridge.sim_dash_impl fuel_ inner_ dash_offset_ dashes_ (Gen.dash_impl fuel_ inner_ dash_offset_ dashes_).
+Proof. intros. apply sim_dash_impl_all. Qed.
